@@ -610,3 +610,27 @@ Lemma send_interleaved_splits :
   snd (app_frames (concat [nth 0 big []; concat small; nth 1 big []])) <> [concat big; concat small] /\
   snd (app_frames (concat [nth 0 big []; concat small; nth 1 big []])) <> [concat small; concat big].
 Proof. vm_compute. split; discriminate. Qed.
+
+(* ------------------------------------------------------------------------------------------------ *)
+(* expiry of an on-demand stream face (unicast-tcp-transport.go runReceive): every received frame moves the expiry to
+   now + lifetime, `now` read AT THAT FRAME.  Times in any unit (Z). *)
+Definition expiry_after (life t0 : Z) (arrivals : list Z) : Z := fold_left (fun _ t => (t + life)%Z) arrivals (t0 + life)%Z.
+
+(* a stream whose frames arrive with gaps of at most the lifetime is never past its expiry when a frame arrives, however long
+   it lasts *)
+Fixpoint gaps_ok (life prev : Z) (arrivals : list Z) : Prop :=
+  match arrivals with [] => True | t :: r => (prev <= t <= prev + life)%Z /\ gaps_ok life t r end.
+
+Lemma stream_face_stays_up_lemma : forall life arrivals t0,
+  (0 <= life)%Z -> gaps_ok life t0 arrivals ->
+  forall k t, nth_error arrivals k = Some t -> (t <= expiry_after life t0 (firstn k arrivals))%Z.
+Proof.
+  intros life arrivals. induction arrivals as [|a r IH]; intros t0 Hl Hg k t Hk; [destruct k; discriminate|].
+  destruct Hg as [Ha Hr]. destruct k as [|k]; cbn [nth_error firstn] in *.
+  - inversion Hk; subst. unfold expiry_after. cbn [fold_left]. lia.
+  - unfold expiry_after in *. cbn [fold_left]. apply (IH a Hl Hr k t Hk).
+Qed.
+
+(* reading the clock once per connection instead (expiry = t0 + life for ever): a frame arriving after t0 + life finds the face expired *)
+Lemma clock_read_once_expires : exists life t0 arrivals, gaps_ok life t0 arrivals /\ exists t, In t arrivals /\ (t0 + life < t)%Z.
+Proof. exists 10%Z, 0%Z, [6; 12]%Z. cbn. split; [lia|]. exists 12%Z. split; [tauto|lia]. Qed.
